@@ -133,7 +133,10 @@ fn stateful_compile_check(stats: &mut Stats) -> Vec<(String, String)> {
     out
 }
 
-fn deep_inputs() -> Vec<(String, String)> {
+/// 62 additions on top of the operand to their left: 62 levels of tree height without any bracket
+const CHAIN62: &str = " + 1 + 1 + 1 + 1 + 1 + 1 + 1 + 1 + 1 + 1 + 1 + 1 + 1 + 1 + 1 + 1 + 1 + 1 + 1 + 1 + 1 + 1 + 1 + 1 + 1 + 1 + 1 + 1 + 1 + 1 + 1 + 1 + 1 + 1 + 1 + 1 + 1 + 1 + 1 + 1 + 1 + 1 + 1 + 1 + 1 + 1 + 1 + 1 + 1 + 1 + 1 + 1 + 1 + 1 + 1 + 1 + 1 + 1 + 1 + 1 + 1 + 1";
+
+fn deep_inputs(all_depths: bool) -> Vec<(String, String)> {
     let mut v = vec![];
     for depth in [50usize, 500, 5000, 50000] {
         v.push((format!("deep-braces-{depth}"), format!("{}x{}\n", "{".repeat(depth), "}".repeat(depth))));
@@ -142,6 +145,23 @@ fn deep_inputs() -> Vec<(String, String)> {
         v.push((format!("long-line-{depth}"), format!("{}\n", "word ".repeat(depth))));
         v.push((format!("many-nots-{depth}"), format!("{{{} x}}\n", "not ".repeat(depth))));
         v.push((format!("many-minus-{depth}"), format!("{{{}1}}\n", "-".repeat(depth))));
+    }
+    // every alternation of two nesting constructs, so that a depth bookkeeping that is right
+    // for each construct alone but loses height where one wraps the other (a tall argument that is
+    // not the last one, an operand on the left, a string inside a call ...) is reached as well
+    let expr: &[(&str, &str, &str)] = &[("paren", "(", ")"), ("arg1", "MAX(", ", 1)"), ("arg2", "MAX(1, ", ")"), ("lhs", "(", " + 1)"), ("rhs", "(1 + ", ")"), ("not", "(not ", ")"), ("neg", "(-", ")"), ("str", "\"{", "}\""), ("call1", "LIST_COUNT(", ")"), ("chainl", "", CHAIN62)];
+    let content: &[(&str, &str, &str)] = &[("cond", "{true:", "}"), ("seq", "{a|", "}"), ("print", "{(", ")}"), ("strprint", "{\"", "\"}")];
+    let depths: &[usize] = if all_depths { &[20, 70, 300, 3000, 30000] } else { &[20, 70, 300, 3000] };
+    for (set, prefix, base) in [(expr, "VAR x = 0\n~ x = ", "1"), (content, "VAR x = 0\n", "x")] {
+        for (n1, o1, c1) in set {
+            for (n2, o2, c2) in set {
+                for depth in depths {
+                    let open = format!("{o1}{o2}").repeat(*depth);
+                    let close = format!("{c2}{c1}").repeat(*depth);
+                    v.push((format!("nest-{n1}-{n2}-{depth}"), format!("{prefix}{open}{base}{close}\n")));
+                }
+            }
+        }
     }
     v
 }
@@ -185,7 +205,7 @@ pub fn space(tier: Tier) -> Space {
     }
     families.push(("generated".into(), generated.len()));
     families.push(("hostile".into(), HOSTILE.len()));
-    let deep = deep_inputs();
+    let deep = deep_inputs(tier == Tier::Thorough);
     families.push(("deep".into(), deep.len()));
     Space { files, families, soup: soups, generated, deep }
 }
@@ -356,15 +376,24 @@ fn cross_check(json_text: &str, doc: &Value, viol: &mut Vec<(String, String)>) {
 }
 
 pub fn worker(tier: Tier, from: usize, to: usize) -> i32 {
-    let sp = space(tier);
-    for i in from..to.min(sp.len()) {
-        let (_fam, _desc, text, _) = sp.nth(i);
-        let (status, viol) = judge(&text);
-        let v: Vec<String> = viol.iter().map(|(c, w)| format!("{c}\u{1}{w}")).collect();
-        eproc::emit(i, &format!("{status}\u{2}{}", v.join("\u{3}")));
+    // the compiler runs on a thread with the standard library's default stack (2 MiB), the
+    // smallest stack a host that compiles off its main thread gives it without asking
+    let h = std::thread::Builder::new().stack_size(2 * 1024 * 1024).spawn(move || {
+        let sp = space(tier);
+        for i in from..to.min(sp.len()) {
+            let (_fam, _desc, text, _) = sp.nth(i);
+            let (status, viol) = judge(&text);
+            let v: Vec<String> = viol.iter().map(|(c, w)| format!("{c}\u{1}{w}")).collect();
+            eproc::emit(i, &format!("{status}\u{2}{}", v.join("\u{3}")));
+        }
+    });
+    match h.map(|h| h.join()) {
+        Ok(Ok(())) => {
+            println!("DONE");
+            0
+        }
+        _ => 3,
     }
-    println!("DONE");
-    0
 }
 
 pub fn run(tier: Tier) -> i32 {
@@ -436,7 +465,7 @@ pub fn run(tier: Tier) -> i32 {
     }
     for i in &res.hangs {
         let (fam, ..) = sp.nth(*i);
-        stats.violation(mk(*i, format!("hang/{fam}"), "no answer within the 10 s per-input cap".into()));
+        stats.violation(mk(*i, format!("hang/{fam}"), "no answer within the 10 s per-input cap, nor within 120 s when compiled alone".into()));
     }
     // the compiler is a function of its input: what it did before must not matter
     for (canary, what) in stateful_compile_check(&mut stats) {
@@ -463,6 +492,7 @@ pub fn run(tier: Tier) -> i32 {
     };
     let extra = vec![
         ("evaluations", json!(res.lines.len() + res.crashes.len() + res.hangs.len())),
+        ("slow_but_answered_when_run_alone", json!(res.slow.len())),
         ("distinct_nontrivial", json!(stats.n_distinct("compiled_inputs"))),
         ("rule", json!("inputs = every single token edit / line edit / char truncation of the selected corpus sources + all token strings of the stated lengths + generated well-formed programs + hostile and deep inputs; non-trivial = accepted by the compiler (then loaded and statically resolved); distinct by input index")),
         ("exhaustive", json!(exhaustive)),
@@ -478,7 +508,7 @@ pub fn run(tier: Tier) -> i32 {
         extra,
         vec![
             "the static resolver is harness code over serde_json::Value; it was calibrated on the reference-compiled corpus (0 dangling references)".into(),
-            "a hang is 'no answer within 10 s' for one input in a worker process; nowhere else is wall time an oracle".into(),
+            "a hang is 'no answer within 10 s' for one input in a shared worker process and again no answer within 120 s in a worker of its own; nowhere else is wall time an oracle".into(),
         ],
         started,
     )
